@@ -10,7 +10,7 @@ use blsful::*;
 use serde_json::json;
 use std::time::{SystemTime, UNIX_EPOCH};
 
-pub const RULE: &str = "keys x messages (length classes) x {Basic, ProofOfPossession, MessageAugmentation} x 2 groups x challenges {new(), from_hash, random(rng), the scalars 1 and r-1}. Interactive: generate -> finalize -> verify must pass (library and the reference equation e(v,g)*e(u+y*H(m),pk)=1); perturbations that must fail: other y, y+1, message bit flip / empty / extended, other pk, -pk, u+G, v+G, -v, u<->v, each other variant label; finalize with a signature of another scheme must be Err. MessageAugmentation is run twice: with the signed message (known finding C10/completeness/scheme=MessageAugmentation) and with the caller-side workaround msg := pk||m on both sides, which must verify and is perturbed like the others. Timestamp variant: (i) API generate, verify(None) and verify(Some(1h)) pass; (ii) elapsed time is controlled THROUGH THE INPUT: the public trait functions generate_commitment / compute_y / generate_proof build honest proofs carrying any timestamp t = now - D; with timeout T drawn so that |D - T| >= 10 s the proof must be accepted iff D < T, and with None always; the reference re-derives y = H(u || t_le) independently; (iii) altered timestamps on an API-generated proof (t+-1, 0, now+1s, now+1h, u64::MAX/2, u64::MAX) with None, Some(0), Some(1), Some(u64::MAX) must always be Err and never abort; honest proofs carrying FUTURE timestamps with a timeout must not abort (accept/reject not asserted); (iv) one real-time pair per worker: generate, sleep 80 ms, Some(5) rejects, Some(600000) accepts (inconclusive if the harness clock shows > 300 s). Distinct by (suite,scheme,variant,proof bytes).";
+pub const RULE: &str = "keys x messages (length classes) x {Basic, ProofOfPossession, MessageAugmentation} x 2 groups x challenges {new(), from_hash, random(rng), the scalars 1 and r-1}. Interactive: generate -> finalize -> verify must pass (library and the reference equation e(v,g)*e(u+y*H(m),pk)=1); perturbations that must fail: other y, y+1, message bit flip / empty / extended, other pk, -pk, u+G, v+G, -v, u<->v, each other variant label; finalize with a signature of another scheme must be Err. MessageAugmentation is run twice: with the signed message (known finding C10/completeness/scheme=MessageAugmentation) and with the caller-side workaround msg := pk||m on both sides, which must verify and is perturbed like the others. Timestamp variant: (i) API generate, verify(None) and verify(Some(1h)) pass; (ii) elapsed time is controlled THROUGH THE INPUT: the public trait functions generate_commitment / compute_y / generate_proof build honest proofs carrying any timestamp t = now - D; with timeout T drawn so that |D - T| >= 10 s the proof must be accepted iff D < T, and with None always; the reference re-derives y = H(u || t_le) independently; (iii) altered timestamps on an API-generated proof (t+-1, 0, now+1s, now+1h, u64::MAX/2, u64::MAX) with None, Some(0), Some(1), Some(u64::MAX) must always be Err and never abort; honest proofs carrying FUTURE timestamps with a timeout must not abort (accept/reject not asserted); (iv) one real-time pair per worker: generate, sleep 80 ms, Some(5) rejects, Some(600000) accepts (inconclusive if the harness clock shows > 300 s). Distinct by (suite,scheme,variant,proof bytes). History clusters (2 quick / 8 thorough per group): the proofs of a Basic and a ProofOfPossession signature (interactive and timestamped) and their single-component variants (other challenge / message / key, u+G, v+G, other labels, timestamp+1) asked in ordered pairs (a,b) as a,b,b,a; every answer must equal the answer the question has on its own.";
 
 pub fn run(ctx: &mut Ctx) {
     for_both!(run_suite, ctx);
@@ -71,6 +71,69 @@ fn run_suite<C: Suite>(ctx: &mut Ctx) {
     if ctx.mine(g) {
         real_time::<C>(ctx, g);
     }
+    ctx.require(&format!("{n}/history"));
+    for i in 0..ctx.tier.pick(2, 8) {
+        g += 1;
+        if ctx.mine(g) {
+            history_cluster::<C>(ctx, g, i);
+        }
+    }
+}
+
+/// One key, one message, two challenges: the proofs of Basic and ProofOfPossession signatures
+/// (interactive and timestamped) and their single-component variants (other challenge, other
+/// message, other key, u+G, v+G, every other label, timestamp+1), asked in ordered pairs as
+/// a, b, b, a (all pairs within a scheme's family, sampled pairs across).
+fn history_cluster<C: Suite>(ctx: &mut Ctx, g: u64, i: usize) {
+    use super::history::{family_pairs, q, sandwich_pairs, Q};
+    let mut rng = ctx.rng(g);
+    let n = C::NAME;
+    let k = gen::random_scalar(&mut rng);
+    let sk = sk_from_rs::<C>(&k);
+    let pk = sk.public_key();
+    let pk2 = sk_from_rs::<C>(&gen::random_scalar(&mut rng)).public_key();
+    let msg = gen::message([32usize, 0, 7, 48, 96, 200][i % 6], Content::Random, &mut rng);
+    let mut msg2 = msg.clone();
+    msg2.push(0);
+    let y = ProofCommitmentChallenge::<C>(sc_from_rs::<C>(&gen::random_scalar(&mut rng)));
+    let y2 = ProofCommitmentChallenge::<C>(sc_from_rs::<C>(&gen::random_scalar(&mut rng)));
+    type A = Option<Vec<u8>>;
+    let verdict = |b: bool| -> A { Some(vec![b as u8]) };
+    let mut qs: Vec<Q<A>> = Vec::new();
+    let (msgr, msg2r) = (&msg, &msg2);
+    let gsig = <SigPt<C> as Group>::generator();
+    for s1 in [Scheme::Basic, Scheme::Pop] {
+        let Ok(sig) = sk.sign(lscheme(s1), &msg) else { return };
+        let Ok(pok) = ProofCommitment::<C>::generate(&msg, sig).and_then(|(c, x)| c.finalize(x, y, sig)) else { return };
+        let (u, v) = uv::<C>(&pok);
+        let fam = format!("made-{}", s1.name());
+        let mut add = |name: &str, want: bool, p: ProofOfKnowledge<C>, key: PublicKey<C>, m: &'_ Vec<u8>, ch: ProofCommitmentChallenge<C>| {
+            let m = m.clone();
+            qs.push(q(format!("{fam}/{name}"), verdict(want), move || verdict(p.verify(key, &m, ch).is_ok())));
+        };
+        add("honest", true, pok, pk, msgr, y);
+        add("other-challenge", false, pok, pk, msgr, y2);
+        add("other-message", false, pok, pk, msg2r, y);
+        add("other-key", false, pok, pk2, msgr, y);
+        add("u+G", false, mk::<C>(s1, u + gsig, v), pk, msgr, y);
+        add("v+G", false, mk::<C>(s1, u, v + gsig), pk, msgr, y);
+        for s2 in s1.others() {
+            add(&format!("label-{}", s2.name()), false, mk::<C>(s2, u, v), pk, msgr, y);
+        }
+        // timestamped variant, no timeout (time does not enter the answer)
+        let Ok(tp) = ProofOfKnowledgeTimestamp::<C>::generate(&msg, sig) else { return };
+        let alt = ProofOfKnowledgeTimestamp::<C> { proof: tp.proof, timestamp: tp.timestamp.wrapping_add(1) };
+        let (t1, t2, t3) = (tp, tp, alt);
+        let (m1, m2, m3) = (msg.clone(), msg2.clone(), msg.clone());
+        qs.push(q(format!("{fam}/timestamp/honest"), verdict(true), move || verdict(t1.verify(pk, &m1, None).is_ok())));
+        qs.push(q(format!("{fam}/timestamp/other-message"), verdict(false), move || verdict(t2.verify(pk, &m2, None).is_ok())));
+        qs.push(q(format!("{fam}/timestamp/timestamp+1"), verdict(false), move || verdict(t3.verify(pk, &m3, None).is_ok())));
+    }
+    let pairs = family_pairs(&qs, ctx.tier.pick(100, 400), &mut rng);
+    let d = || json!({"suite":n,"sk":hex::encode(k.to_be_bytes()),"msg":crate::hx(&msg),"note":"verdicts answer [1]/[0]"});
+    let mut cid = k.to_be_bytes().to_vec();
+    cid.extend_from_slice(&msg);
+    sandwich_pairs(ctx, "C10", &format!("{n}/history"), "proof-variants", &cid, &d, &qs, &pairs);
 }
 
 /// message handed to the proof API for a signature over `msg`
